@@ -209,12 +209,26 @@ func (r *asmReplayer) finish() error {
 		return nil
 	}
 	tr, err := r.c.validateAsmTraces(files, srcs)
+	cleanPairs := map[[2]string]bool{}
 	for _, f := range files {
+		readCleanPairs(f, cleanPairs)
 		os.Remove(f)
 	}
 	if err != nil {
 		return err
 	}
+	// ... and what the clean-up passes did to every assembled text must be Cleanup!Pipeline
+	nclean, badPair, err := r.c.validateCleanPairs(cleanPairs)
+	if err != nil {
+		return err
+	}
+	if badPair != "" {
+		r.c.violation("trace", map[string]any{"why": "the recorded result of the clean-up passes differs from their transcription Cleanup!Pipeline", "pair": badPair})
+	}
+	r.c.mu.Lock()
+	pc, _ := r.c.Cov["recorded_cleanups_validated"].(int)
+	r.c.Cov["recorded_cleanups_validated"] = pc + nclean
+	r.c.mu.Unlock()
 	r.c.mu.Lock()
 	prev, _ := r.c.Cov["recorded_traces_validated"].(int)
 	r.c.Cov["recorded_traces_validated"] = prev + tr.Processes
